@@ -189,6 +189,20 @@ def nargs_judge(case, obs):
         sig = f"nargs-arity:{case['class'][6:]}:{part}"
     else:
         sig = f"nargs:{case['nargs']}:{case['elem']}:{case['class']}:{part}"
+        if case["shape"] == "positional" and case["nargs"] in ("*", "?") and case["class"] == "conforming":
+            # one root cause of its own: argparse runs the action of a positional that may be empty also when no word
+            # matched it, so parse_args([... no word for it ...]) resets what --cfg / the process environment gave.
+            # Named only if exactly those channels deviate, all alike, in every mode - anything else keeps the
+            # generic signature above.
+            reset = {"cfg_str", "cfg_file", "env_os_json"}
+            alike = True
+            for m in obs:
+                ref_o = json.dumps(obs[m]["argv_words"])
+                dev = {n: json.dumps(o) for n, o in obs[m].items() if json.dumps(o) != ref_o}
+                if not dev or not set(dev) <= reset or len(set(dev.values())) != 1:
+                    alike = False
+            if alike:
+                sig = f"nargs:{case['nargs']}:positional:value-given-by-config-or-environment-is-reset-by-the-absent-positional"
     detail = {"declaration": {"nargs": case["nargs"], "element": case["elem"], "shape": case["shape"]}, "value": case["value"],
               "partition": part, "observations": {m: {n: c05._short(o) for n, o in obs[m].items()} for m in obs}}
     return [{"signature": sig, "detail": json.dumps(detail, default=repr)[:3000]}]
